@@ -151,7 +151,13 @@ func combinedUUID(op string, lo *storage.LookupOptions, uuids ...uuid.UUID) stri
 	for _, id := range uuids {
 		ss = append(ss, id.String())
 	}
-	return fmt.Sprintf("%s:%s:%s", op, lo.UUID().String(), strings.Join(ss, ":"))
+	// The UUID of the lookup options does not cover the paging offset; the pages
+	// of a lookup must not share a key.
+	los := lo.UUID().String()
+	if lo.Offset != 0 {
+		los = fmt.Sprintf("%s+%d", los, lo.Offset)
+	}
+	return fmt.Sprintf("%s:%s:%s", op, los, strings.Join(ss, ":"))
 }
 
 // Objects pushes to the provided channel the objects for the given object and
